@@ -7,7 +7,8 @@ from . import C14, C07
 
 ID = 'C06'
 PROFILES = ['dev']
-BOUNDS = {'state': 'an arbitrary Val (every kind; arrays of 0..=3 (quick 2) lazily symbolic scalar elements + 0..=1 dictionary entry) and a clone of it made by the derived Clone (shared Rc)',
+BOUNDS = {'array programs': 'every sequence of <= 3 array statements out of 25 (rock with 0 / 1 / 2 values, roll, roll into, roll as expression, indexed / extending / keyed / null-keyed writes, copy and mutation of the copy, storing an array in an array, passing to a function that mutates its parameter, reads) through the real parser + interpreter against the reference interpreter; all literals symbolic',
+          'state': 'an arbitrary Val (every kind; arrays of 0..=3 (quick 2) lazily symbolic scalar elements + 0..=1 dictionary entry) and a clone of it made by the derived Clone (shared Rc)',
           'operation': 'one of index_or_insert+write / push of 0..=2 values / pop / array_coerce / index / decay, applied to the clone',
           'keys': 'every kind; numeric index classes: any double whose `as usize` is < len+2, one mid index (40), any double >= 2^64 (saturates to usize::MAX), any negative double or NaN',
           'strings': 'subject strings for read indexing are bounded (<= 3 characters over {a, b, é}); dictionary keys are opaque strings (all strings)'}
@@ -243,6 +244,11 @@ def jobs(ctx, tier):
     for op in OPS:
         for ka in range(6):
             js.append(Job(f'{op}/{KINDS[ka]}', h_array, (mir, op, ka), witness=[f'{op}-done'], str_mode='opaque', weight=6 if ka == 5 else 1))
+    # program level: array statements through the real parser + interpreter against the reference interpreter
+    from . import C04
+    from .progcommon import preparse
+    from ..progen import array_shapes
+    js += C04.shape_jobs(mir, preparse(ctx, array_shapes(3)), 'array-programs', chunk=64)
     return js
 
 
@@ -309,6 +315,9 @@ def validate(ctx):
 
 
 def replay(ctx, f):
+    if 'program' in (f.get('cex') or {}):
+        from .progcommon import native_replay
+        return native_replay(ctx, f['cex']['program'], f)
     cex = f.get('cex') or {}
     out = {'reproduced': None}
     if 'operator' in cex:
